@@ -50,7 +50,19 @@ def run_binary(case):
     b1, b2 = B.canon(s1), B.canon(s2)
     fn = {"union": DA.dfa_union, "intersection": DA.dfa_intersection, "symmetric_difference": DA.dfa_symmetric_difference}[op]
     pyop = {"union": lambda x, y: x or y, "intersection": lambda x, y: x and y, "symmetric_difference": lambda x, y: x != y}[op]
-    res = lib(fn, D1, D2)
+    if case.get("logging"):
+        import contextlib
+        import io
+        from gambatools.global_settings import GambaTools
+        old = GambaTools.enable_logging
+        GambaTools.enable_logging = True
+        try:
+            with contextlib.redirect_stdout(io.StringIO()):
+                res = lib(fn, D1, D2)
+        finally:
+            GambaTools.enable_logging = old
+    else:
+        res = lib(fn, D1, D2)
     snap, R = result_rdfa(res, s1["S"])
     A1, A2 = fa.rdfa(s1), fa.rdfa(s2)
     want = fa.product(A1, A2, pyop)
@@ -148,7 +160,7 @@ def binary_cases(draw, tier):
     lo = 1 if draw(st.integers(0, 9)) == 0 else 2
     d1 = draw(G.dfa_specs(min_states=lo, max_states=4, sigma=S, pool=G.POOL[:10]))
     d2 = draw(G.dfa_specs(min_states=lo, max_states=4, sigma=S, pool=G.POOL[:10] if overlap else G.POOL[10:22]))
-    return {"d1": d1, "d2": d2, "op": draw(st.sampled_from(["union", "intersection", "symmetric_difference"]))}
+    return {"d1": d1, "d2": d2, "op": draw(st.sampled_from(["union", "intersection", "symmetric_difference"])), "logging": draw(st.integers(0, 5)) == 0}
 
 
 @st.composite
